@@ -30,6 +30,8 @@ type vfC14Kind struct {
 	AZ     func(c map[string]interface{}) // Azure personality: alters the Graph-style profile document
 	AT     func(c map[string]interface{}) // Keycloak personality: alters the claims of the (JWT) access token
 	Need   string                         // must-reject applies only when the ID token lacks this claim (the profile endpoint is its only source)
+	Conn   string                         // connection-level (TLS) trouble instead of an answer; only in worlds that reach their provider over TLS
+	ConnAlways bool                       // ... that no trust configuration can tolerate (no handshake at all)
 }
 
 func vfAllFlows() map[string]bool { return map[string]bool{"*": true} }
@@ -39,6 +41,9 @@ func vfC14Kinds() []vfC14Kind {
 	ks := []vfC14Kind{}
 	for _, k := range []string{"500", "400", "401", "reset-before", "reset-after-headers", "hang", "empty-body", "truncated-json", "non-json"} {
 		ks = append(ks, vfC14Kind{Name: k, Reject: all, Fault: vfIdpFault{Kind: k}})
+	}
+	for _, k := range vfTLSConnKinds {
+		ks = append(ks, vfC14Kind{Name: k, Reject: all, Conn: k, ConnAlways: k == "tls:no-handshake" || k == "tls:plain"})
 	}
 	ks = append(ks, vfC14Kind{Name: "oversized-valid-json", Fault: vfIdpFault{Kind: "oversized", Arg: 1 << 20}})
 	ks = append(ks, vfC14Kind{Name: "truncated-json@20", Reject: all, Fault: vfIdpFault{Kind: "truncated-json", Arg: 20}})
@@ -207,6 +212,22 @@ func vfC14(w *vfWorld) {
 	cfg.Alpha = t.Prob("c14.alpha-config", 160)
 	cfg.CookieRefresh, cfg.CookieExpire = 10*time.Minute, 6*time.Hour
 	cfg.Extra = append(cfg.Extra, "--pass-access-token=true", "--set-xauthrequest=true", "--skip-jwt-bearer-tokens=true")
+	// a fifth of the worlds reach their provider over TLS: the product's own transport verifies the simulated CA's certificates
+	// (--provider-ca-file) or was told not to verify (--ssl-insecure-skip-verify)
+	tlsMode := ""
+	var tlsExtra []string
+	if t.Prob("c14.idp-tls", 200) {
+		tlsMode = vfPick(t, "c14.idp-tls-trust", []string{"ca-file", "skip-verify", "ca-file+other"})
+		cfg.IdpURL = "https://" + vfIdpHost
+		switch tlsMode {
+		case "ca-file":
+			tlsExtra = []string{"--provider-ca-file=" + w.writeFile("sim-ca.pem", vfTLSMaterial().CAPEM)}
+		case "ca-file+other":
+			tlsExtra = []string{"--provider-ca-file=" + w.writeFile("unrelated-ca.pem", vfTLSCertPEM), "--provider-ca-file=" + w.writeFile("sim-ca.pem", vfTLSMaterial().CAPEM)}
+		default:
+			tlsExtra = []string{"--ssl-insecure-skip-verify=true"}
+		}
+	}
 	flows := []string{"login", "login-profile", "bearer", "refresh", "plain-login", "plain-stale", "refresh-profile", "google-login", "backend-logout", "google-refresh", "azure-login", "logingov-login"}
 	flow := flows[t.Choice("c14.flow", len(flows))]
 	if strings.HasPrefix(flow, "plain") {
@@ -215,7 +236,7 @@ func vfC14(w *vfWorld) {
 	}
 	if flow == "backend-logout" {
 		// the sign-out calls the provider's end-session endpoint from the back channel
-		cfg.Extra = append(cfg.Extra, "--backend-logout-url=http://"+vfIdpHost+"/logout?id_token_hint={id_token}")
+		cfg.Extra = append(cfg.Extra, "--backend-logout-url="+cfg.idp()+"/logout?id_token_hint={id_token}")
 	}
 	if flow == "google-login" || flow == "google-refresh" {
 		cfg.Provider = "google"
@@ -238,6 +259,7 @@ func vfC14(w *vfWorld) {
 		cfg.Provider = "logingov"
 		cfg.Extra = []string{"--pass-access-token=true", "--set-xauthrequest=true", "--jwt-key=" + vfLoginGovClientKeyPEM()}
 	}
+	cfg.Extra = append(cfg.Extra, tlsExtra...)
 	// a fifth of the OIDC worlds run the Keycloak flavour of the provider: JWT access tokens carry the roles
 	kc := cfg.Provider == "oidc" && (flow == "login" || flow == "refresh" || flow == "bearer") && t.Prob("c14.keycloak", 200)
 	if kc {
@@ -251,6 +273,7 @@ func vfC14(w *vfWorld) {
 	if audClaim != "" && cfg.Provider != "plain" {
 		cfg.Extra = append(cfg.Extra, "--oidc-audience-claim="+audClaim)
 	}
+	w.idpURL = cfg.IdpURL
 	idp := w.StartIdP()
 	idp.Rotate = t.Bool("c14.rotate")
 	idp.IDTokenTTL, idp.AccessTTL = 3*time.Hour, 3*time.Hour
@@ -491,7 +514,7 @@ func vfC14(w *vfWorld) {
 				}
 				if transient {
 					kd.Reject = nil
-					if endpointClass(calls[k].Endpoint) == "jwks" && strings.HasPrefix(flow, "refresh") && kd.Fault.Kind != "" && kd0.Reject["*"] {
+					if endpointClass(calls[k].Endpoint) == "jwks" && strings.HasPrefix(flow, "refresh") && (kd.Fault.Kind != "" || kd.Conn != "" && (tlsMode != "skip-verify" || kd.ConnAlways)) && kd0.Reject["*"] {
 						// the keys could not be fetched for THIS verification (nobody retries within the request): the refresh answer
 						// stays unverified and nothing of it may be adopted
 						kd.Reject = map[string]bool{"refresh": true, "refresh-profile": true}
@@ -510,6 +533,14 @@ func vfC14(w *vfWorld) {
 				if kd.AZ != nil && !az {
 					continue
 				}
+				if kd.Conn != "" {
+					if tlsMode == "" {
+						continue
+					}
+					if tlsMode == "skip-verify" && !kd.ConnAlways {
+						kd.Reject = nil // the operator switched certificate verification off: whatever is presented is accepted, by design
+					}
+				}
 				label := fmt.Sprintf("%s pos=%d(%s) kind=%s", flow, k, calls[k].Endpoint, kd.Name)
 				b := newBrowser()
 				if !prep(b) {
@@ -525,6 +556,18 @@ func vfC14(w *vfWorld) {
 						return kd.Fault
 					}
 					return vfIdpFault{}
+				}
+				connN := 0
+				idp.ConnPlan = func(task string) string {
+					i := connN
+					connN++
+					// connection-level trouble is counted in connections since the flow began (one call = one connection): persistent
+					// = every connection from the k-th on, transient = the k-th only
+					if kd.Conn != "" && (transient && i == k || !transient && i >= k) {
+						fired = true
+						return kd.Conn
+					}
+					return ""
 				}
 				curMint = func(m *vfMintCtx) {
 					if hit(m.Call) && kd.Mint != nil && m.Claims != nil {
@@ -554,7 +597,7 @@ func vfC14(w *vfWorld) {
 					sets = len(w.redis.Events())
 				}
 				r := act(b)
-				idp.Plan, curMint, idp.JWKSOverride, idp.Userinfo = nil, nil, nil, nil
+				idp.Plan, curMint, idp.JWKSOverride, idp.Userinfo, idp.ConnPlan = nil, nil, nil, nil, nil
 				curAT, curATHit, curATFired = nil, nil, nil
 				curAZ, curAZHit, curAZFired = nil, nil, nil
 				cs.Iterations++
@@ -660,10 +703,10 @@ func vfC14(w *vfWorld) {
 							}
 							break
 						}
-						if vfSessionCookieSet(r, cfg.CookieName) && cfg.Store == "cookie" && (kd.Fault.Kind != "" || kd.AT != nil) {
+						if vfSessionCookieSet(r, cfg.CookieName) && cfg.Store == "cookie" && (kd.Fault.Kind != "" || kd.AT != nil || kd.Conn != "") {
 							w.violate("C14", "session-extended-by-failed-refresh", kd.Name, "%s: a new session cookie was issued although the refresh call failed", label)
 						}
-						if w.redis != nil && (kd.Fault.Kind != "" || kd.AT != nil) {
+						if w.redis != nil && (kd.Fault.Kind != "" || kd.AT != nil || kd.Conn != "") {
 							for _, ev := range w.redis.Events()[sets:] {
 								if ev.Name == "SET" && !ev.IsLock {
 									w.violate("C14", "session-extended-by-failed-refresh", kd.Name, "%s: the stored session was rewritten although the refresh call failed", label)
